@@ -74,8 +74,9 @@ class SourceSet:
             except SyntaxError as e:  # pragma: no cover
                 raise AnchorMissing(f"{r} does not parse: {e}") from e
             if not os.environ.get("VERIF_NO_INLINE"):
-                from .normalise import builder_loops, ctor_kwargs, format_calls, group_aliases, inline_helpers, plain_assignments
-                for step in (plain_assignments, inline_helpers, group_aliases, ctor_kwargs, builder_loops, format_calls):
+                from .normalise import (builder_loops, ctor_kwargs, extend_generators, format_calls, group_aliases, inline_helpers,
+                                        plain_assignments)
+                for step in (plain_assignments, inline_helpers, group_aliases, ctor_kwargs, extend_generators, builder_loops, format_calls):
                     try:
                         t2 = step(t)
                         compile(ast.fix_missing_locations(t2), r, "exec")      # a normal form that is not valid Python is discarded
